@@ -212,6 +212,7 @@ func runC01(c *report.Ctx) {
 	// ---- schema (shared with C09) -------------------------------------------------
 	ruleSchema(c, []string{"nsUnspent", "nsCredits", "nsDebits", "nsMinedBalance", "nsTxRecords", "nsBlocks", "nsUnmined", "nsUnminedInputs", "nsUnminedCredits", "nsAddresses", "nsGameHistory", "nsUnminedGameHistory"}, 40, 20)
 	ruleByteOrder(c, []string{pkgTxmgr}, 4)
+	ruleLayout(c, nil, 40)
 }
 
 func phiHasAppend(ph *ssa.Phi, depth int) bool {
